@@ -1,8 +1,9 @@
 """C14 - dependence functions are fitted within bounds, optimally, in dependency order (wiring / typestate)."""
 import ast
+from fractions import Fraction
 
 from vstat.loader import AnalysisError
-from vstat.terms import top_alts, IT, builder, show, SELF, NONE, G, alts, walk, mentions, phi
+from vstat.terms import top_alts, IT, builder, show, SELF, NONE, G, alts, walk, mentions, phi, subst
 from vstat.guards import path_conditions, exception_name
 from vstat.cfg import cfg_of, EXIT
 from vstat.sigs import bind
@@ -182,8 +183,29 @@ def bounds(prog, rep):
                         probs.append(f"bounds= must be convert_bounds_for_curve_fit(bounds), found {show(bt)[:80]}")
                 elif bt is not None:
                     probs.append("bounds= passed although bounds is None")
-                if method == "wlsq" and bd.get("sigma") != P("weights"):
-                    probs.append(f"weighted fit must pass sigma=weights, found {show(bd.get('sigma', NONE))[:40]}")
+                if method == "wlsq":
+                    # curve_fit minimises sum((r_i / sigma_i) ** 2): a WEIGHT w_i on the squared residual is sigma_i = w_i ** -0.5.  Passing the weights
+                    # themselves as sigma inverts and squares them (weights=lambda x, y: x ** 4 then nearly ignores the intervals it should favour)
+                    from vstat.algebra import Mono, to_mono
+                    sg = bd.get("sigma", NONE)
+                    W = P("weights")
+                    def as_w(t_):
+                        return subst(t_, {("call", G("numpy.asarray"), (W,), kw_): W for kw_ in ((), (("dtype", G("float")),), (("dtype", G("numpy.float64")),))})
+                    conv_w = [a for a in alts(sg) if a != W]
+                    raw_w = [a for a in alts(sg) if a == W]
+                    good_conv = bool(conv_w) and all((lambda m: m is not None and m == Mono(1, 1, {"w": Fraction(-1, 2)}))(to_mono(as_w(a), {W: "w"}, lambda n_: None)) for a in conv_w)
+                    # the raw value may only be what is left where no weights were given (None): the conversion runs under 'weights is not None' alone
+                    raw_ok = True
+                    if raw_w:
+                        cv = [s_ for s_ in cfg_of(fn).all_stmts() if isinstance(s_, ast.Assign) and isinstance(s_.targets[0], ast.Name) and s_.targets[0].id == "weights"]
+                        pcs_w = path_conditions(prog, fn, b)
+                        raw_ok = bool(cv) and all(list(pcs_w.of(s_)) == [("not", ("isnone", W))] for s_ in cv)
+                    if sg == W:
+                        probs.append("the weights are passed to curve_fit as sigma: curve_fit minimises sum((r_i / sigma_i) ** 2), so the weighting is INVERTED and SQUARED "
+                                     "(mu = DependenceFunction(lin, weights=lambda x, y: x ** 4) over 8 intervals: a = 1.994, b = 0.309, the minimiser of sum((r / w) ** 2); the documented "
+                                     "weighted least squares sum(w r ** 2) gives a = 2.197, b = 0.154); pass sigma = 1 / np.sqrt(weights)")
+                    elif not (good_conv and raw_ok):
+                        probs.append(f"weighted fit must pass sigma = weights ** -0.5 (a weight on the squared residual), found {show(sg)[:80]}")
                 if method == "lsq" and "sigma" in bd:
                     probs.append("unweighted fit must not pass sigma")
                 extra = set(bd) - {"f", "xdata", "ydata", "p0", "bounds", "sigma"}
